@@ -523,6 +523,9 @@ func (e *c04Exec) checkCompileModel(where string, p *compiled) {
 	if p.panic != "" {
 		return // totality is C01's subject
 	}
+	if !p.compileTailIntact() {
+		e.violate("compile-isolation", "caller-options-overwritten", fmt.Sprintf("%s: Compile(%q) wrote into the caller's option slice behind the options it was given (a later Compile with that slice is affected)", where, p.spec.Src))
+	}
 	if modelOptsFail(p.spec.Opts, &processTables) && p.err == nil {
 		e.violate("compile-isolation", "option-accepted", fmt.Sprintf("%s: Compile(%q) succeeded although its options register an existing or built-in function name: %+v", where, p.spec.Src, p.spec.Opts))
 	}
